@@ -158,7 +158,9 @@ def run(tier, replay=None):
             viol.append({"what": f"{it['insn']}: emitted text could not be read by the semantic driver", "instruction": it["insn"], "program": it["src0"]})
             continue
         cnt["states_run"] += d["ran"]
-        cert = d.get("certified") == "1" or d.get("certified-sem") == "1"
+        cert0 = d.get("certified") == "1" or d.get("certified-sem") == "1"
+        # certifiedSemX: the end-to-end theorem needs the extra assumption MsLow on extract64/sextract64 (Props/T2Sem.lean)
+        cert = cert0 or d.get("certified-semx") == "1"
         if not d["tree-equal"]:
             buckets["tie_broken"] += 1
             viol.append({"what": f"{it['insn']} part {it['part']}: the real output is not what the lowering model predicts" +
@@ -167,6 +169,13 @@ def run(tier, replay=None):
                          "found": bool(d.get("fail"))})
             continue
         if d.get("fail"):
+            if cert:
+                # soundness of the certificates: a behaviour proved for all states must not have a failing sampled state
+                buckets["certified_with_failing_state"] += 1
+                viol.append({"what": f"{it['insn']} part {it['part']}: CERTIFIED (proved for all states) but a sampled state disagrees: {d['fail']} "
+                                     "(the carve-out / certificate or the execution model is wrong)",
+                             "instruction": it["insn"], "program": it["src0"], "ast": json.dumps(it["ast"]), "real_tree": d["real"][:2500]})
+                continue
             if it["features"] & semprops.NOT_JUDGED:
                 buckets["not_judged_unsequenced"] += 1
             elif it["features"] & known_feats:
@@ -183,6 +192,8 @@ def run(tier, replay=None):
         it["_cert"] = (bool(cert), d.get("cert-detail"))
         if cert:
             buckets["proved_for_all_states"] += 1
+            if not cert0:
+                cnt["proved_for_all_states_only_under_MsLow"] += 1
             if len(examples.get("_certified", [])) < 6:
                 examples.setdefault("_certified", []).append(it["insn"])
         else:
@@ -213,10 +224,14 @@ def run(tier, replay=None):
         "counts": dict(cnt), "semantic_buckets": dict(buckets), "modelled_parts": len(sem_items),
         "unmodelled_by_reason": dict(unmodelled.most_common(40)), "known_class_failures_by_carve_out_class": dict(by_class),
         "certified_examples": examples.get("_certified", []),
-        "certificate_conjuncts (ctx ok, WFStmts, WFES, CarveProgSem, HybFreeSs, HSameProg)": dict(cert_detail), "violations_total": len(viol),
+        "certificate_conjuncts (ctx ok, WFStmts, WFES, CarveProgSem, HybFreeSs, HSameProg, CarveProgSem with low-bits flag)": dict(cert_detail), "violations_total": len(viol),
         "samples": [{"instruction": it["insn"], "program": it["src0"][:200], "status": it["status"], "modelled": "ast" in it} for it in items[:4]],
     })
     res.assumptions += ["parts outside the modelled dialect (reasons counted in unmodelled_by_reason) are checked per output only (sort/well-formedness/ownership), not semantically",
                         "states where the C side is undefined or out of fuel are not judged",
-                        "float instructions and HVX are outside the model"]
+                        "float instructions and HVX are outside the model",
+                        "proved_for_all_states: the certificate of the part evaluates to true in Lean (certified / certifiedSem / certifiedSemB / certifiedSemP: "
+                        "theorems of Props/C01.lean, Props/T2Sem.lean for every macro interpretation with MsOK); counts.proved_for_all_states_only_under_MsLow of them "
+                        "hold by certifiedSemX only, whose theorem (Sem.certifiedSemX_correct) assumes in addition MsLow: extract64/sextract64(v, start, len) do not depend on "
+                        "the bits of v from start+len upwards (proved for the interpretation the driver executes with: Sem.msLow_macroSem)"]
     return res.finish(TB, "cd lean && lake build RzilVerif.Props.C01")
